@@ -72,3 +72,25 @@ def determinism(pid, tier, master, n):
           f"fresh interpreter PYTHONHASHSEED=77 in reverse order) identical status, "
           f"event-log digest and choice list")
     return 0
+
+
+def batch(pid, tier, master, n):
+    """The same n runs at two pool sizes must produce the same set of (case, event-log, result)
+    digests: a run's outcome must not depend on which worker ran it or what ran before it."""
+    import io
+    import contextlib
+
+    outs = []
+    for workers in (3, 16):
+        buf = io.StringIO()
+        with contextlib.redirect_stdout(buf):
+            rc = driver.run_batch(pid, tier, master, budget_s=3600, max_runs=n, workers=workers)
+        with open(os.path.join(driver.VERIF, "evidence", f"{pid}.json")) as f:
+            ev = json.load(f)
+        outs.append((rc, ev["coverage"]["evaluations"], ev["coverage"]["distinct_nontrivial"],
+                     ev["coverage"]["result_set_digest"]))
+    if outs[0] != outs[1]:
+        print(f"SELFTEST-FAIL {pid}: batch differs between 3 and 16 workers: {outs}")
+        return 2
+    print(f"SELFTEST-OK {pid}: batch of {n} runs identical at 3 and 16 workers {outs[0]}")
+    return 0
